@@ -1014,6 +1014,7 @@ func callBuiltin(caller *frame, fn *ssa.Builtin, args []value) value {
 			// in place: journal the overwritten cells
 			ext := arg0[:len(arg0)+len(add)]
 			for k := range add {
+				memAccess(caller, &ext[len(arg0)+k], true) // a write to shared backing storage
 				i.setCell(&ext[len(arg0)+k], add[k])
 			}
 			return ext
@@ -1050,6 +1051,7 @@ func callBuiltin(caller *frame, fn *ssa.Builtin, args []value) value {
 			tmp := make([]value, n)
 			copy(tmp, src[:n])
 			for k := 0; k < n; k++ {
+				memAccess(caller, &dst[k], true)
 				i.setCell(&dst[k], tmp[k])
 			}
 		}
